@@ -256,7 +256,9 @@ pub(crate) fn indent(val: &str, kwargs: Kwargs, _: &State) -> TeraResult<String>
     let mut res = String::with_capacity(val.len() * 2);
 
     let mut first_line = true;
-    for line in val.lines() {
+    // Not `str::lines`: it would also strip the `\r` of `\r\n` line endings
+    let lines = (!val.is_empty()).then(|| val.strip_suffix('\n').unwrap_or(val).split('\n'));
+    for line in lines.into_iter().flatten() {
         if first_line {
             if indent_first_line {
                 res.push_str(&indent);
@@ -264,7 +266,8 @@ pub(crate) fn indent(val: &str, kwargs: Kwargs, _: &State) -> TeraResult<String>
             first_line = false
         } else {
             res.push('\n');
-            if !line.is_empty() || indent_blank_line {
+            let is_blank = line.is_empty() || line == "\r";
+            if !is_blank || indent_blank_line {
                 res.push_str(&indent);
             }
         }
